@@ -338,6 +338,31 @@ def controlled(cases, seed):
         yield c
 
 
+def hub_cases(seed, tag, n_rook=0, n_queen=0, n_real=0, bgraph=True, routers=True):
+    """Terrains on which SEVERAL basins keep more neighbours than Boruvka's low-degree bound after the first
+    contraction round (gen.hub_world).  n_rook / n_queen worlds run with the bound lowered through the guarded
+    knob (6 on rook rasters, 8 on queen rasters: 140..460 nodes), n_real worlds with the library value 16
+    (1200..2200 nodes).  Every mst variant resolves the same world; the stand-alone basin graph is built
+    with both algorithms."""
+    rng = random.Random(seed)
+    plan = [("rook", 6)] * n_rook + [("queen", 8)] * n_queen + [(None, 16)] * n_real
+    for i, (conn, low) in enumerate(plan):
+        g, z, low = gen.hub_world(rng, low_degree=low, conn=conn)
+        steps = []
+        seqs = [[gen.op_single(), gen.op_mst("boruvka", "basic")], [gen.op_single(), gen.op_mst("boruvka", "carve")],
+                [gen.op_single(), gen.op_mst("kruskal", "carve")]]
+        if routers:
+            seqs += [[gen.op_single(), gen.op_mst("boruvka", "carve"), gen.op_multi(4)], [gen.op_pflood(), gen.op_single()]]
+        for k, ops in enumerate(seqs):
+            steps += [dict(op="new", g=k, ops=ops), dict(op="update", g=k, z=z), dict(op="drop", g=k)]
+        if bgraph:
+            steps += [dict(op="new", g=9, ops=[gen.op_single()]), dict(op="update", g=9, z=z),
+                      dict(op="bgraph", g=9, m="kruskal"), dict(op="bgraph", g=9, m="boruvka"), dict(op="drop", g=9)]
+        c = flow_case("%s-hub%d-%d-%d" % (tag, low, seed, i), g, steps, timeout_ms=120000)
+        c["knobs"] = dict(low_degree=low)
+        yield c
+
+
 def basin_graph_cases(seed, count, max_side, tag, high_degree=0):
     """C15: stand-alone basin graphs (both tree algorithms) on single-router graphs; heavy ties; the
     same basin-graph object is updated again with other fields, masks and base levels."""
